@@ -110,6 +110,19 @@ func Fixed() []*Grammar {
 			P("A", Al(Call(), `"a"`), Al(Call(A(0)), "A", `"a"`)),
 		}})
 
+	// rr3: several productions with the same body: three or more actions compete
+	// for one (state, look-ahead) pair; needs -a
+	add(&Grammar{ID: "rr3", Ambiguous: true, Flags: []string{"-a"}, Seps: wsSeps,
+		Lex: []LexDef{ws()},
+		Prods: []*Prod{
+			P("T", Al(Call(A(0)), "A"), Al(Call(A(0)), "B"), Al(Call(A(0)), "C"), Al(Call(A(0)), "D"), Al(Call(A(0), A(1)), "E", `"z"`)),
+			P("A", Al(Call(), `"a"`)),
+			P("B", Al(Call(), `"a"`)),
+			P("C", Al(Call(), `"a"`)),
+			P("D", Al(Call(), `"a"`), Al(Call(), `"a"`, `"a"`)),
+			P("E", Al(Call(), `"a"`)),
+		}})
+
 	// nolexer: parser only
 	add(&Grammar{ID: "nolexer", Flags: []string{"-no_lexer"},
 		Prods: []*Prod{
